@@ -223,7 +223,7 @@ impl Arm for SampledArm {
 }
 
 pub fn spec() -> CheckSpec {
-    let iso = |a: Box<dyn Arm>| -> Box<dyn Arm> { Box::new(IsoArm { check_id: "C06", inner: a, timeout_s: 60 }) };
+    let iso = |a: Box<dyn Arm>| -> Box<dyn Arm> { Box::new(IsoArm { check_id: "C06", inner: a, timeout_s: 60, exe_env: None, alias: None }) };
     let arms: Vec<Box<dyn Arm>> = vec![
         iso(Box::new(EnumArm { kind: EnumKind::Counts, index: OnceLock::new(), quick_bases: usize::MAX })),
         iso(Box::new(EnumArm { kind: EnumKind::Truncations, index: OnceLock::new(), quick_bases: usize::MAX })),
